@@ -655,7 +655,7 @@ fn ser_byte(id: usize, v: Version, j: usize) -> u8 {
     }
 }
 
-// @harness props=C06,C03,C09 tiers=quick:N=5,M=1554|N=5,M=1596|N=5,M=1548|N=5,M=1668|N=5,M=1488,MEM=7|N=5,M=1332|N=5,M=1549|N=5,M=1584,MEM=10;thorough:N=5,M=1554|N=5,M=1596|N=5,M=1548|N=5,M=1668|N=5,M=1488,MEM=7|N=5,M=1332|N=5,M=1549|N=5,M=1362|N=5,M=1572|N=5,M=1584,MEM=10|N=5,M=1416|N=5,M=1764|N=5,M=1524|N=5,M=1512|N=5,M=222|N=5,M=3108|N=5,M=1530|N=5,M=1344|N=5,M=1680|N=5,M=2232|N=5,M=1553|N=6,M=9108|N=6,M=10560 unwind=N+4 cap=1500 mem=3 covers=1
+// @harness props=C06,C03,C09 tiers=quick:N=5,M=1554|N=5,M=1596|N=5,M=1548|N=5,M=1668|N=5,M=1488,MEM=7|N=5,M=1332|N=5,M=1549|N=5,M=1584,MEM=10|N=5,M=1692;thorough:N=5,M=1692|N=5,M=1554|N=5,M=1596|N=5,M=1548|N=5,M=1668|N=5,M=1488,MEM=7|N=5,M=1332|N=5,M=1549|N=5,M=1362|N=5,M=1572|N=5,M=1584,MEM=10|N=5,M=1416|N=5,M=1764|N=5,M=1524|N=5,M=1512|N=5,M=222|N=5,M=3108|N=5,M=1530|N=5,M=1344|N=5,M=1680|N=5,M=2232|N=5,M=1553|N=6,M=9108|N=6,M=10560 unwind=N+4 cap=1500 mem=3 covers=1
 // @fn HttpConnection::try_write HttpConnection::enqueue_response HttpConnection::clear_write_buffer HttpConnection::pending_write
 // @claim history invariant, checked at every step of a sequence of N operations from a fresh connection (operation i is digit i of M in base 6: 0 enqueue_response, 1 try_write accepted completely, 2 try_write accepted partly (any 0 < k < remaining), 3 try_write answered Ok(0), 4 interrupted, 5 failing with EAGAIN or EPIPE): every write call passes the stream exactly the not-yet-accepted suffix of the oldest unsent response (length and an arbitrary byte), exactly one stream write per try_write, none when nothing is pending (InvalidWrite); Ok(k<len) keeps the rest, Ok(len) moves to the next response, EINTR changes nothing, Ok(0)/EAGAIN/EPIPE discard everything and report ConnectionClosed; pending_write() <=> something unsent
 // @bounds N operations with the operation kinds fixed per query (a symbolic kind makes the io::Error drop glue symbolic, which CBMC unwinds recursively) and k, the watched byte and the HTTP version symbolic; responses are identified by distinct status codes and serialized by a 6-byte stand-in instead of Response::write_all (the stand-in is selected by a flag in the dispatch hook; with the flag off the hook calls write_all on the same arguments)
